@@ -163,8 +163,23 @@ def bounded_pipeline(seed, tier):
     identity_ok = {}
     for name, src in docs:
         segs = _segments(src)
-        for label, s2 in mutations(segs, rnd, n_random):
-            text = '~\n'.join(s2) + '~\n'
+        cases = [(label, s2, '~\n'.join(s2) + '~\n') for label, s2 in mutations(segs, rnd, n_random)]
+        # the same document under other delimiters, with data that contains the ACKNOWLEDGEMENT's delimiters (~ * :): an echoed
+        # value must not add or split elements or segments of the 997/999
+        for k in [i for i, sg in enumerate(segs) if sg.split('*')[0] in ('NM1', 'REF', 'CLM', 'N3', 'BHT')][:3]:
+            for bad in ('A*B', 'A~B', 'A:B', '*', '~~'):
+                parts = segs[k].split('*')
+                j = min(2, len(parts) - 1)
+                s3 = segs[:k] + ['*'.join(parts[:j] + [parts[j] + 'Q' * 70 + '\0' + bad] + parts[j + 1:])] + segs[k + 1:]
+                enc = ''
+                for sg in s3:
+                    if sg.startswith('ISA'):
+                        t = sg[:-1].replace('*', '|') + '>'
+                    else:
+                        t = sg.replace('\0' + bad, '\0').replace('*', '|').replace(':', '>').replace('\0', bad)
+                    enc += t + '!\n'
+                cases.append(('value %r in %s under delimiters ! | >' % (bad, parts[0]), [x.replace('\0', '') for x in s3], enc))
+        for label, s2, text in cases:
             sinks = [(True, False, False), (True, True, True)] if tier == 'quick' else [(True, False, False), (True, True, False), (True, False, True), (False, True, True)]
             for (w997, whtml, wxml) in sinks:
                 n += 1
@@ -221,6 +236,14 @@ def bounded_pipeline(seed, tier):
                         problems.append('C06: the acknowledgement fed back selects no map: %s' % str(e)[:80])
                     except Exception as e:
                         problems.append('C06: validating the acknowledgement raised %s: %s' % (type(e).__name__, str(e)[:80]))
+                # C06: values copied from the input never add or split elements or segments
+                LIMITS = {'AK1': 2, 'AK2': 2, 'AK3': 4, 'AK4': 4, 'AK5': 6, 'AK9': 9, 'IK3': 4, 'IK4': 4, 'IK5': 6, 'ST': 3, 'SE': 2, 'GE': 2, 'IEA': 2, 'TA1': 5}
+                over = [s.format('~', '*', ':') for s in asegs if len(s) > LIMITS.get(s.get_seg_id(), 99) and (s.get_seg_id() != 'AK2' or len(s) > 3)]
+                unknown_ids = [s.get_seg_id() for s in asegs if s.get_seg_id() not in ('ISA', 'GS', 'ST', 'AK1', 'AK2', 'AK3', 'AK4', 'AK5', 'AK9', 'IK3', 'IK4', 'IK5', 'CTX', 'TA1', 'SE', 'GE', 'IEA')]
+                if over:
+                    problems.append('C06: an echoed value added elements to the acknowledgement: %r' % (over[:2],))
+                if unknown_ids:
+                    problems.append('C06: an echoed value split a segment of the acknowledgement (segment ids %r)' % (unknown_ids[:3],))
                 # C05: verdict vs acknowledgement codes; group totals vs recount
                 ak5 = [s.get_value('01') for s in asegs if s.get_seg_id() in ('AK5', 'IK5')]
                 ak9 = [s for s in asegs if s.get_seg_id() == 'AK9']
